@@ -94,7 +94,7 @@ Definition chk (b : bool) (code : N) : list N := if b then [] else [code].
 
 Definition model_parse (data : bytes) (v : view) : gparse :=
   let r := parse_response data v in
-  MkG r (has_result r, has_resource r, has_error r) (parse_result r) (parse_model r) (parse_collection r) (access_result r).
+  MkG r (has_flags r) (parse_result r) (parse_model r) (parse_collection r) (access_result r).
 Definition bool3_eqb (a b : bool * bool * bool) : bool :=
   Bool.eqb (fst (fst a)) (fst (fst b)) && Bool.eqb (snd (fst a)) (snd (fst b)) && Bool.eqb (snd a) (snd b).
 Definition check_parse (data : bytes) (v : view) (g : gparse) : list N :=
@@ -173,14 +173,6 @@ Definition check_case (c : ccase) : list N :=
    13 the decoded result / resource id / error is not what the handler supplied
    14 a value re-parsed from its own MarshalJSON is not Equal to itself *)
 Definition okv (o : outcome value) : option value := match o with Ok x => Some x | _ => None end.
-Definition exactly_one (h : bool * bool * bool) : bool :=
-  let '(a, b, c) := h in
-  (a && negb b && negb c) || (negb a && b && negb c) || (negb a && negb b && c).
-Definition class_of (h : bool * bool * bool) : option rclass :=
-  let '(a, b, c) := h in
-  if a && negb b && negb c then Some CResult
-  else if negb a && b && negb c then Some CResource
-  else if negb a && negb b && c then Some CError else None.
 Definition oclass_eqb (a : option rclass) (b : rclass) : bool :=
   match a with Some x => rclass_eqb x b | None => false end.
 
@@ -220,8 +212,7 @@ Definition viol_case (c : ccase) : list N :=
     (if exactly_one (gp_has g) then [] else [11]) ++
     (if oclass_eqb (class_of (gp_has g)) (expected_class h) then [] else [12]) ++
     (if match h with
-        | HOk None => outcome_eqb ojson_eqb (gp_result g) (Ok (Some JNull))
-        | HOk (Some j) => outcome_eqb ojson_eqb (gp_result g) (Ok (Some j))
+        | HOk res => outcome_eqb ojson_eqb (gp_result g) (Ok (supplied_result res))
         | HNew rid =>
           negb (is_valid_rid rid) ||
           match gp_result g with Ok (Some j) => obytes_eqb (ref_unmarshal_ast j) (Some rid) | _ => false end
